@@ -265,6 +265,9 @@ package cache
 // C13: the models an event carries are the handlers' own: the old model of an
 // update or delete event is not the object the cache handed (shallow) to readers
 //@ func (*TableCache).ApplyCacheUpdate$1 group clone
+// (what ApplyCacheUpdate establishes before it iterates: the table's cache exists and is well formed)
+//@ requires t != nil && t.eventProcessor != nil && tCache != nil && CacheWF(tCache)
+//@ requires new != nil ==> allocated(ptrof(new))
 //@ at call cache.(*eventProcessor).AddEvent requires arg3 == nil || fresh(ptrof(arg3))
 
 // The dispatcher: every event taken off the queue is dispatched (under the
